@@ -3,6 +3,13 @@ Proof gate (Properties/C06.v + Properties/C01_ngram_skip_edge.v) + correspondenc
 Model/K10_Assembly.v with ngram_vectorizer.py / skip_gram_vectorizer.py / edge_list_vectorizer.py + property oracle
 (the counts of the property text computed directly from the raw input, position by position).
 
+'+' is a pure function in the model (Model/K7_AddHistory.v: a history appends to a store), so its purity on the
+implementation is checked here: kind "hist" = a pool of models fitted ONCE and a history of merges / transform calls on
+those shared objects; every result is compared with direct token counts of the concatenated corpora and with
+run_history in Coq, every operand with its state at creation after every merge.  Kinds ngram / skip / edge may carry
+`prefit` (the estimator object was fitted before on other data) and `pretransform` (earlier transform calls): expected
+values are those of a fresh estimator.
+
 `c01_cases_and_check(ctx)` runs the C01 checks (one row per item, fitted width, column indices in range, no exception,
 unseen vocabulary ignored) for the three vectorizers on a transform-focused stream; a future harness/c01.py can call it.
 """
@@ -11,7 +18,7 @@ from fractions import Fraction
 from . import common as C
 
 HEADER = """From Coq Require Import ZArith List.
-From VZ Require Import Model.K10_Assembly Model.K7_Ngrams.
+From VZ Require Import Model.K10_Assembly Model.K7_Ngrams Model.K7_AddHistory.
 Import ListNotations.
 Open Scope Z_scope.
 """
@@ -84,6 +91,10 @@ def coq_case(c, impl):
         if c.get("Xc") is not None:
             e += ")"
         return e
+    if k == "hist":
+        ops = "; ".join("Merge %s %s %s" % (nat(i), nat(j), C.coq_list(o)) for (i, j), o in zip(hist_merges(c), c["_ord"]))
+        return "bind (run_history (map uni_fit [%s]) [%s]) (fun st => Ok (store_view %s st))" % (
+            "; ".join(C.coq_list2(X) for X in c["pool"]), ops, C.coq_list2(c["X2"]))
     if k == "skip":
         td = "(learn_tokdict %s)" % C.coq_list2(c["docs"])
         if c.get("td") is not None:
@@ -295,7 +306,19 @@ def gen_ngram(rng):
         # implementation and the counts are checked against them.
         c["prune"] = add_pruning(rng, docs, vocab, n)
     c["X2"] = gen_X2(rng, vocab, unseen, n, docs)
+    add_prior(rng, c, lambda: gen_docs(rng, vocab[:max(1, len(vocab) - 1)] + unseen[:2], n),
+              lambda: gen_X2(rng, vocab, unseen, n, docs), refit=not c.get("prune"))
     return c
+
+
+def add_prior(rng, c, other_training, other_X2, refit=True):
+    """The estimator object / the fitted model has a past (the property speaks of what fit and transform return, whatever
+    the object was used for before): `prefit` = an earlier fit of the same object on other data with another
+    vocabulary, `pretransform` = earlier transform calls on other inputs.  The expected values do not depend on them."""
+    if refit and rng.random() < 0.3:
+        c["prefit"] = other_training()
+    if rng.random() < 0.3:
+        c["pretransform"] = [other_X2() for _ in range(rng.randint(1, 2))]
 
 
 def gen_skip(rng):
@@ -326,6 +349,10 @@ def gen_skip(rng):
     elif r < 0.25:
         c["prune"] = add_pruning(rng, docs, vocab, 2)
     c["X2"] = gen_X2(rng, vocab, unseen, 2, docs)
+    # an earlier fit only where the dictionary is learned (a fixed one needs its highest index in the data, see above;
+    # a pruning that keeps nothing divides by zero)
+    add_prior(rng, c, lambda: gen_docs(rng, vocab[:max(1, len(vocab) - 1)] + unseen[:2], 2),
+              lambda: gen_X2(rng, vocab, unseen, 2, docs), refit=c.get("td") is None and not c.get("prune"))
     return c
 
 
@@ -365,6 +392,8 @@ def gen_edge(rng):
     else:
         X2 = gen_edges(rng, rows + unseen_r[:2], cols + unseen_c[:2], 1, 8)
     c["X2"] = X2
+    add_prior(rng, c, lambda: gen_edges(rng, rows[:max(1, len(rows) - 1)] + unseen_r[:2], cols[:max(1, len(cols) - 1)] + unseen_c[:2], 1, 8),
+              lambda: gen_edges(rng, rows + unseen_r[:2], cols + unseen_c[:2], 1, 6))
     return c
 
 
@@ -390,9 +419,89 @@ def gen_add(rng, pool=None):
     return c
 
 
+# histories of '+' on shared models: a = store[0], b = store[1], c = store[2 or 1]; results are appended to the store
+def hist_templates(n):
+    """a, b, c = the first pool models (c = b in a pool of two), rK = the result of the K-th merge"""
+    a, b, c = 0, 1, (2 if n > 2 else 1)
+    r0, r1, r2 = n, n + 1, n + 2
+    return [
+        [["merge", a, b], ["merge", a, c]],                                      # a+b, then a+c : left operand reused
+        [["merge", a, b], ["merge", c, b], ["merge", a, b]],                     # right operand reused, a+b twice
+        [["merge", a, b], ["merge", b, a]],                                      # a+b, b+a
+        [["merge", a, b], ["merge", r0, c], ["merge", b, c], ["merge", a, r2]],   # (a+b)+c and a+(b+c)
+        [["merge", a, a], ["merge", a, b], ["merge", r0, a]],                    # a+a, a+b, (a+a)+a
+        [["transform", a], ["merge", a, b], ["transform", a], ["transform", b], ["merge", b, a], ["merge", a, c]],
+        [["merge", a, b], ["merge", r0, a], ["merge", r0, r0], ["merge", a, r0]],  # results merged again, with operands
+        [["merge", c, a], ["merge", c, b], ["merge", b, c], ["merge", a, c]],
+    ]
+
+
+def hist_merges(c):
+    return [(op[1], op[2]) for op in c["ops"] if op[0] == "merge"]
+
+
+def hist_corpora(c):
+    """the corpus every entry of the store stands for (rows of the left operand first)"""
+    cs = [list(X) for X in c["pool"]]
+    for i, j in hist_merges(c):
+        cs.append(cs[i] + cs[j])
+    return cs
+
+
+def hist_name(c, k):
+    """store[k] as an expression in the pool models s0, s1, ..."""
+    n = len(c["pool"])
+    if k < n:
+        return "s%d" % k
+    i, j = hist_merges(c)[k - n]
+    return "(%s+%s)" % (hist_name(c, i), hist_name(c, j))
+
+
+def gen_hist(rng, pool=None, ops=None):
+    def corpus():
+        V = rng.randint(1, 4)
+        return gen_docs(rng, rng.sample(range(1, 9), V), 1, 1, 3)
+    if pool is None:
+        pool = [corpus() for _ in range(rng.randint(2, 4))]
+        r = rng.random()
+        if r < 0.1:
+            pool[1] = [list(d) for d in pool[0]]
+        elif r < 0.2:
+            pool[1] = [[t + 10 for t in d] for d in pool[1]]        # disjoint vocabularies
+        elif r < 0.3:
+            pool[0] = [[t for t in d if t in {x for e in pool[1] for x in e}] for d in pool[0]]   # a's vocabulary inside b's
+            if not any(pool[0]):
+                pool[0] = [list(pool[1][0]) or [1]]
+    n = len(pool)
+    if ops is None:
+        ops = [list(o) for o in rng.choice(hist_templates(n))] if rng.random() < 0.6 else []
+        rows = [len(X) for X in pool]
+        for op in ops:
+            if op[0] == "merge":
+                rows.append(rows[op[1]] + rows[op[2]])
+        for _ in range(rng.randint(1 if ops else 2, 4)):
+            if rng.random() < 0.25:
+                ops.append(["transform", rng.randrange(len(rows))])
+                continue
+            pick = lambda: rng.randrange(n) if rng.random() < 0.6 else rng.randrange(len(rows))
+            i, j = pick(), pick()
+            if rows[i] + rows[j] > 16 or len(rows) >= 10:
+                continue
+            ops.append(["merge", i, j])
+            rows.append(rows[i] + rows[j])
+    c = {"kind": "hist", "pool": pool, "ops": ops, "int_labels": rng.random() < 0.15}
+    allv = sorted({t for X in pool for d in X for t in d})
+    c["X2"] = gen_X2(rng, allv, [0, 9, 20, 21], 1, [d for X in pool for d in X])
+    return c
+
+
 ADD_POOL = [[[1, 2, 1]], [[2, 3], [3]], [[4], [], [4, 4]], [[1], [2], [3], [4]], [[5, 1, 5, 1, 5]], [[3, 2, 1], [1, 2, 3]]]
 
 CORPUS = [
+    # seeded C06-1: the left operand's column_index_dictionary_ written by the merge, seen when it is an operand again
+    {"kind": "hist", "pool": [[[1, 2, 1], [2, 3]], [[4, 1], [4, 4, 5]], [[3, 6], [1, 6, 6, 2]], [[1, 4], [4]]],
+     "ops": [["merge", 0, 1], ["merge", 0, 2], ["merge", 0, 3], ["merge", 1, 0], ["merge", 4, 2], ["merge", 3, 1]],
+     "X2": [[1, 4, 4, 6, 9], [], [5, 3, 3, 2, 6, 6, 6]]},
     # D13: merged model's transform
     {"kind": "add", "Xa": [[1, 2], [2, 3]], "Xb": [[3, 4]], "X2": [[1, 4, 4], [9], []]},
     # D2: X' lacking the last fitted row and column; X' without any known edge
@@ -413,7 +522,7 @@ CORPUS = [
 ]
 
 
-def gen_case(rng, weights=(0.35, 0.25, 0.25, 0.15)):
+def gen_case(rng, weights=(0.35, 0.25, 0.25, 0.15), hist=0.7):
     r = rng.random()
     a, b, cc, _ = weights
     if r < a:
@@ -422,7 +531,7 @@ def gen_case(rng, weights=(0.35, 0.25, 0.25, 0.15)):
         return gen_skip(rng)
     if r < a + b + cc:
         return gen_edge(rng)
-    return gen_add(rng)
+    return gen_hist(rng) if rng.random() < hist else gen_add(rng)
 
 
 # ---------------------------------------------------------------- evaluation
@@ -437,6 +546,14 @@ def evaluate(cases, tag="C06"):
     for i, (c, r) in enumerate(zip(cases, impl)):
         if "err" in r and "train" not in r and "add" not in r:
             continue                                  # the child failed on this case as a whole: reported by the caller
+        if c["kind"] == "hist":
+            h = r["hist"]
+            if any(x is None for x in h["created"]):
+                continue                              # a merge raised: the oracle reports it, nothing to compare
+            # iteration order of the python set of each merge = labels of the result beyond the left operand's
+            n = len(c["pool"])
+            c["_ord"] = [[l for l, _ in h["created"][n + k]["label_dict"]][len(h["created"][i]["label_dict"]):]
+                         for k, (i, j) in enumerate(hist_merges(c))]
         if c["kind"] == "skip":
             n = None
             if "tokdict" in r:
@@ -569,7 +686,15 @@ def oracle(c, r):
         return bad, known
     if "err" in r["train"]:
         return ["fit raised %s: %s" % (r["train"]["err"], r["train"].get("msg"))], []
+    if k == "skip" and r.get("labels") is None:
+        return ["the fitted column_index_dictionary_ is not an enumeration 0 .. n-1 of the columns of the training matrix"], []
     streams = [("train", c["docs"] if k != "edge" else c["edges"]), ("transform", c["X2"])]
+    if "fit_then_transform" in r:                       # transform of the training data by the fitted model
+        streams.append(("fit_then_transform", streams[0][1]))
+    core = lambda m: {"err": m["err"]} if isinstance(m, dict) and "err" in m else m
+    if "transform_again" in r and "err" not in r["transform"] and core(r["transform_again"]) != core(r["transform"]):
+        bad.append("two transform calls of the same fitted model on the same X' differ: %s then %s"
+                   % (str(r["transform"])[:200], str(r["transform_again"])[:200]))
     for key, data in streams:
         m = r[key]
         if "err" in m:
@@ -602,6 +727,8 @@ def c01_check(c, r):
     """C01 for one case: transform returns one row per item (EdgeList: per fitted row label) with the fitted width, all
     column indices in range, no exception, and unseen vocabulary is ignored."""
     k, bad = c["kind"], []
+    if k == "hist":
+        return bad
     if k == "add":
         if "add" in r or "err" in r.get("train", {}):
             return bad
@@ -638,6 +765,8 @@ def kind_of(c):
         return "skip:%s:%s:%s" % (c["wf"], c["kernel"], mode)
     if k == "edge":
         return "edge:%s:%s%s" % ("joint" if c["joint"] else "sep", "rd" if c.get("rd") else "-", "cd" if c.get("cd") else "-")
+    if k == "hist":
+        return "hist:pool=%d:merges=%d" % (len(c["pool"]), len(hist_merges(c)))
     return "add:%s" % ("3" if c.get("Xc") else "2")
 
 
@@ -679,10 +808,17 @@ def process(ctx, cases, replay, tag, do_oracle=True, do_c01=True):
             ctx.report("harness child failed on a case: %s %s" % (r["err"], r.get("tb", "")[-300:]),
                        {"stage": "impl", "case": clean(c)}, found_input=False)
             continue
+        if c["kind"] == "hist":
+            process_hist(ctx, c, r["hist"], mv, stats, do_oracle)
+            continue
         nontrivial = bool(isinstance(r.get("transform"), dict) and r["transform"].get("triples")) or \
             bool(isinstance(r.get("train"), dict) and r["train"].get("triples"))
         ctx.count_case(clean(c), nontrivial=nontrivial, kind=kind_of(c))
         boundary_stats(ctx, c, r)
+        if c.get("prefit") is not None:
+            ctx.dist("%s:estimator-fitted-before-on-other-data" % c["kind"])
+        if c.get("pretransform"):
+            ctx.dist("%s:model-used-for-earlier-transforms" % c["kind"])
         failed = False
         if do_oracle:
             stats["oracle"] += 1
@@ -714,13 +850,175 @@ def process(ctx, cases, replay, tag, do_oracle=True, do_c01=True):
     return stats
 
 
+# ---------------------------------------------------------------- histories of '+'
+
+def hist_expect(c, k, snap, X2):
+    """the property for store[k] given the state `snap` the implementation reports: columns = the vocabulary of the
+    concatenated corpora (both public dictionaries, inverse of each other), training matrix and transform(X2) = token
+    counts, column by label.  Returns the first discrepancy or None."""
+    corp = hist_corpora(c)[k]
+    vocab = sorted({t for d in corp for t in d})
+    ld, idd = snap["label_dict"], snap["index_dict"]
+    if sorted(l for l, _ in ld) != vocab or sorted(i for _, i in ld) != list(range(len(vocab))):
+        return "column_label_dictionary_ %s is not an enumeration of the vocabulary %s of its corpora" % (ld, vocab)
+    if sorted([i, l] for l, i in ld) != idd:
+        return "column_index_dictionary_ %s is not the inverse of column_label_dictionary_ %s (vocabulary %s)" % (idd, ld, vocab)
+    col = dict(ld)
+    for key, docs in (("train", corp), ("transform", X2)):
+        m = snap.get(key)
+        if m is None:
+            continue
+        if "err" in m:
+            return "%s raised %s: %s" % (key, m["err"], m.get("msg"))
+        exp = {}
+        for i, d in enumerate(docs):
+            for t in d:
+                if t in col:
+                    exp[(i, col[t])] = exp.get((i, col[t]), 0) + 1
+        if m["shape"] != [len(docs), len(vocab)]:
+            return "%s has shape %s, expected %s" % (key, m["shape"], [len(docs), len(vocab)])
+        d_ = cells_differ(exp, dense(m))
+        if d_:
+            return "%s differs from the token counts of the concatenated corpora at (row, col) %s: got %s expected %s" % (
+                key, d_[:5], [dense(m).get(x, 0) for x in d_[:5]], [exp.get(x, 0) for x in d_[:5]])
+    return None
+
+
+def state_diff(before, after):
+    for key in ("label_dict", "index_dict", "tok_dict", "inv_dict", "train", "transform"):
+        if key in before and key in after and before[key] != after[key]:
+            return "%s was %s, now %s" % (key, str(before[key])[:200], str(after[key])[:200])
+    return None
+
+
+def hist_oracle(c, h):
+    """(message, number of ops of the shortest prefix of the history that shows it) or None.  A wrong RESULT (a merge
+    that raises, wrong columns / training matrix / transform of a merged model) is reported in preference to the change
+    of an operand's state that caused it; an operand change alone is reported when no result of the history is wrong."""
+    n = len(c["pool"])
+    created, k, seen_tf, changed = h["created"], n, {}, None
+    for e in range(n):
+        why = hist_expect(c, e, created[e], c["X2"])
+        if why:
+            return "fitted model s%d: %s" % (e, why), 0
+
+    def because():
+        return "" if changed is None else "  [earlier in this history: %s]" % changed[0]
+    for t, (op, st) in enumerate(zip(c["ops"], h["steps"])):
+        if op[0] == "transform":
+            e = op[1]
+            if st["out"] is None:
+                continue
+            why = hist_expect(c, e, dict(created[e], train=None, transform=st["out"]), c["X2"])
+            if why:
+                return "%s.transform(X2) in step %d: %s%s" % (hist_name(c, e), t, why, because()), t + 1
+            seen_tf.setdefault(e, st["out"])
+            continue
+        i, j = op[1], op[2]
+        if st.get("skipped"):
+            k += 1
+            continue
+        name = "%s = %s + %s (step %d)" % (hist_name(c, k), hist_name(c, i), hist_name(c, j), t)
+        if "err" in st:
+            return "%s raised %s: %s%s" % (name, st["err"], st["msg"], because()), t + 1
+        why = hist_expect(c, k, created[k], c["X2"])
+        if why:
+            return "%s: %s%s" % (name, why, because()), t + 1
+        for e, sn in zip((i, j), st["operands"]):
+            d = state_diff(created[e], sn)
+            if d and changed is None:
+                changed = ("%s changed its %s operand %s: %s" % (name, "left" if e == i else "right", hist_name(c, e), d), t + 1)
+        k += 1
+    for e, f in enumerate(h["final"]):
+        if f is None:
+            continue
+        why = hist_expect(c, e, dict(f, label_dict=created[e]["label_dict"], index_dict=created[e]["index_dict"]), c["X2"])
+        if why:
+            return "at the end of the history %s: %s%s" % (hist_name(c, e), why, because()), len(c["ops"])
+        if e in seen_tf and seen_tf[e] != f["transform"]:
+            return "%s.transform(X2) gave %s earlier in the history and %s at its end%s" % (
+                hist_name(c, e), str(seen_tf[e])[:200], str(f["transform"])[:200], because()), len(c["ops"])
+    if changed is not None:
+        return changed
+    for e, f in enumerate(h["final"]):
+        d = state_diff(created[e], f) if f is not None else None
+        if d:
+            return "at the end of the history %s is not what it was when created: %s" % (hist_name(c, e), d), len(c["ops"])
+    return None
+
+
+def hist_correspondence(c, h, mv):
+    if mv[0] == "Raise":
+        return "run_history raises %s, the implementation completed the history" % (mv[1],)
+    if len(mv[1]) != len(h["final"]):
+        return "store sizes differ: model %d, implementation %d" % (len(mv[1]), len(h["final"]))
+    for e, ((idx, labd, tr, tf), f) in enumerate(zip(mv[1], h["final"])):
+        if sorted([i, l] for i, l in idx) != f["index_dict"]:
+            return "%s column_index_dictionary_: model %s, implementation %s" % (hist_name(c, e), idx, f["index_dict"])
+        if sorted(([l, i] for l, i in labd), key=lambda p: (p[1], p[0])) != f["label_dict"]:
+            return "%s column_label_dictionary_: model %s, implementation %s" % (hist_name(c, e), labd, f["label_dict"])
+        if not same_matrix(canon(tr), f["train"]):
+            return "%s training matrix: model %s, implementation %s" % (hist_name(c, e), str(canon(tr))[:300], str(f["train"])[:300])
+        if not same_matrix(canon(tf), f["transform"]):
+            return "%s transform: model %s, implementation %s" % (hist_name(c, e), str(canon(tf))[:300], str(f["transform"])[:300])
+    return None
+
+
+def hist_features(ctx, c):
+    ms = hist_merges(c)
+    n, left, right, used = len(c["pool"]), [i for i, _ in ms], [j for _, j in ms], set()
+    if len(set(left)) < len(left):
+        ctx.dist("hist:left-operand-reused-as-left")
+    if len(set(right)) < len(right):
+        ctx.dist("hist:right-operand-reused-as-right")
+    if set(left) & set(right):
+        ctx.dist("hist:operand-on-both-sides")
+    if any(i == j for i, j in ms):
+        ctx.dist("hist:self-merge")
+    if any(i >= n or j >= n for i, j in ms):
+        ctx.dist("hist:result-merged-again")
+    for op in c["ops"]:
+        if op[0] == "transform":
+            used.add(op[1])
+        elif op[1] in used or op[2] in used:
+            ctx.dist("hist:merge-after-transform")
+            break
+    if any(i < n and i in left[:t] for t, i in enumerate(left)):
+        ctx.dist("hist:pool-model-left-twice")
+
+
+def process_hist(ctx, c, h, mv, stats, do_oracle):
+    nontrivial = any(f and isinstance(f.get("train"), dict) and f["train"].get("triples") for f in h["final"])
+    ctx.count_case(clean(c), nontrivial=nontrivial, kind=kind_of(c))
+    hist_features(ctx, c)
+    failed = False
+    if do_oracle:
+        stats["oracle"] += 1
+        bad = hist_oracle(c, h)
+        if bad:
+            failed = True
+            msg, nops = bad
+            short = dict(clean(c), ops=c["ops"][:nops])
+            ctx.report("C06 fails on the implementation for the history [%s] on shared fitted unigram models: %s"
+                       % ("; ".join("%s" % (op,) for op in short["ops"]), msg),
+                       {"stage": "oracle", "case": short, "actual": h})
+    if mv is None:
+        if not failed:
+            stats["corr_bad"].append((c, h, "no model value for the history (a merge did not complete)"))
+        return
+    stats["corr"] += 1
+    why = hist_correspondence(c, h, mv)
+    if why is not None and not failed:
+        stats["corr_bad"].append((c, {"hist": h}, why))
+
+
 def c01_cases_and_check(ctx, n=None, replay_case=None):
     """The C01 stream for NgramVectorizer / SkipgramVectorizer / EdgeListVectorizer (and merged unigram models):
     random fitted models, X' with unseen tokens / labels, empty items, items shorter than n, X' missing the highest fitted
     column / row.  Reports through ctx; returns the statistics."""
     if n is None:
         n = 300 if ctx.quick else 8000
-    cases = [replay_case] if replay_case else [gen_case(ctx.rng, (0.3, 0.35, 0.3, 0.05)) for _ in range(n)]
+    cases = [replay_case] if replay_case else [gen_case(ctx.rng, (0.3, 0.35, 0.3, 0.05), hist=0.0) for _ in range(n)]
     st = process(ctx, cases, None, "C01nse", do_oracle=False, do_c01=True)
     ctx.coverage["c01_ngram_skip_edge"] = {"cases": st["c01"], "correspondence_cases": st["corr"],
                                            "disagreements": len(st["corr_bad"])}
@@ -729,18 +1027,28 @@ def c01_cases_and_check(ctx, n=None, replay_case=None):
 
 def run(ctx, replay=None):
     C.run_gate(ctx, extra_props=("C01_ngram_skip_edge",))
-    n = 800 if ctx.quick else 25000
+    n = 800 if ctx.quick else 19000
     if replay:
         cases = [replay["case"]]
     else:
         pairs = [gen_add(ctx.rng, (a, b)) for a in ADD_POOL for b in ADD_POOL]
         if ctx.quick:
             pairs = pairs[::2]
-        cases = [dict(c) for c in CORPUS] + pairs + [gen_case(ctx.rng) for _ in range(n)]
+        # the same pool fitted ONCE and every ordered pair merged on those shared objects (in a shuffled order), and every
+        # template history on every rotation of a 3-model sub-pool
+        allp = [["merge", i, j] for i in range(len(ADD_POOL)) for j in range(len(ADD_POOL))]
+        ctx.rng.shuffle(allp)
+        hists = [gen_hist(ctx.rng, [list(X) for X in ADD_POOL], allp[:18]), gen_hist(ctx.rng, [list(X) for X in ADD_POOL], allp[18:])]
+        for r_ in range(3):
+            sub = [ADD_POOL[(r_ + 2 * k) % len(ADD_POOL)] for k in range(3)]
+            hists += [gen_hist(ctx.rng, [list(X) for X in sub], [list(o) for o in t]) for t in hist_templates(3)]
+        cases = [dict(c) for c in CORPUS] + pairs + hists + [gen_case(ctx.rng) for _ in range(n)]
     st = process(ctx, cases, replay, "C06")
     st2 = {"corr_bad": []} if replay else c01_cases_and_check(ctx)
     ctx.coverage["rule"] = ("random (vectorizer, parameters, training corpus / edge list, X') cases + corpus of past failures + all ordered "
-                            "pairs of a pool of fitted unigram models; non-trivial = a non-empty matrix; distinct by case hash")
+                            "pairs of a pool of fitted unigram models, fresh AND as histories of merges / transforms on shared model objects "
+                            "(operands reused on either side, results merged again, self-merge; every operand compared with its state "
+                            "at creation after every merge); estimators with an earlier fit / earlier transform calls; non-trivial = a non-empty matrix; distinct by case hash")
     ctx.assumptions += [
         "tokens / labels are strings or ints; counts and edge values are integers (exact in float32 / float64)",
         "skip-gram: kernel_args = {} (flat / harmonic / geometric(0.9) as the code calls them: no mask, no offset, no "
